@@ -523,7 +523,9 @@ func NewRouterEnv(spec string) (*RouterEnv, error) {
 			sc.IdleTimeout = idleSec // I=<seconds>: idle_timeout of the stream listeners (absent/0 = the default)
 		}
 		if k == "http" || k == "fasthttp" || k == "https" || k == "httpunix" || k == "fasthttpunix" {
-			sc.Http.ClientAddrHeader = "X-Verif-Client"
+			// configured in a NON-canonical spelling (as "X-Real-IP" would be): header names are case-insensitive, the
+			// clients send "X-Verif-Client"
+			sc.Http.ClientAddrHeader = "x-verif-CLIENT"
 			if parts["H"] == "1" {
 				sc.Http.Path = "/dns-query" // requests for any other path: 404
 			}
